@@ -13,7 +13,7 @@ if ! git apply "$D/patch.diff" 2>/dev/null; then if ! git apply --3way "$D/patch
 if ! go build ./... 2>$SCR/build.log; then echo "DOES NOT COMPILE"; cat $SCR/build.log; exit 2; fi
 python3 /tmp/mut/baseline.py $SCR/repo | head -3
 cd /verif
-for p in C01 C02 C03 C04 C05 C06 C07 C08 C09 C11 C12 C13 C14 C15 C17 C19 C20; do
+for p in ${CHECKS:-C01 C02 C03 C04 C05 C06 C07 C08 C09 C11 C12 C13 C14 C15 C17 C19 C20}; do
   res=$(VERIF_REPO=$SCR/repo ./run.sh $p quick 2>&1); code=$?
   rules=$(echo "$res" | grep -o "rule=[^ ]*" | sort | uniq -c | tr '\n' ' ')
   echo "CHECK $p exit=$code $rules"
